@@ -72,6 +72,9 @@ def _mismatches_of(ctx, cfg, rows, tag, chunk=None, par=8):
         os.unlink(p)
     return mm
 
+FATAL_DEFAULTS = {'id': -1, 'shape': '?', 'mode': 'hostile', 'ck': False, 'S': 1, 'N': 0, 'sch': [], 'W': [], 'SL': [], 'part': [], 'alt': -1,
+                  'sig': 0, 'stage': 'terminate', 'fwi': 0, 'asan': 'uncaught exception'}
+
 def _load(path):
     """one row per line; a line that is not JSON (garbled by a wild write of the code under test) becomes a Fatal row"""
     rows = []
@@ -81,7 +84,11 @@ def _load(path):
             if not line:
                 continue
             try:
-                rows.append(json.loads(line))
+                r = json.loads(line)
+                if r.get('e') == 'Fatal':    # (vt.h's own terminate handler writes a bare Fatal line: uncaught C++ exception)
+                    for k, v in FATAL_DEFAULTS.items():
+                        r.setdefault(k, v)
+                rows.append(r)
             except ValueError:
                 m = re.search(r'"id":(\d+)', line)
                 rows.append({'e': 'Fatal', 'id': int(m.group(1)) if m else -1, 'shape': '?', 'mode': 'hostile', 'ck': False, 'S': 1, 'N': 0,
@@ -106,7 +113,8 @@ def judge(ctx, rows, what='case'):
             for i in ok:
                 explained[i] = fid
             if ok:
-                ctx.known(fid, f'{text} [{len(ok)} recorded cases, e.g. id {rows[ok[0]].get("id")}: {mm[ok[0]][:160]}]')
+                rp = ctx.save_replay(f'known_{fid}.ndjson', json.dumps(rows[ok[0]]) + '\n')
+                ctx.known(fid, f'{text} [{len(ok)} recorded cases, e.g. {rp}: {mm[ok[0]][:160]}]')
         ok = sorted(i for i in quiet['all'] if i not in explained)
         for i in ok:
             explained[i] = 'combination'
@@ -125,7 +133,9 @@ def run(ctx):
     t = ctx.tier
     pool = ThreadPoolExecutor(max_workers=8)
     # 1. the design: every invariant holds on the specification without deviations ...
-    f_mc = pool.submit(lambda: ctx.mc('MC_RpcSerialize', f'MC_RpcSerialize_{t}.cfg', timeout=2400, workers=12))
+    f_mc = pool.submit(lambda: ctx.mc('MC_RpcSerialize', f'MC_RpcSerialize_{t}.cfg', timeout=3000, workers=12))
+    # thorough: the quick message set once more with two deviating words at a time
+    f_mc2 = pool.submit(lambda: ctx.mc('MC_RpcSerialize', 'MC_RpcSerialize_thorough2.cfg', timeout=3000, workers=4)) if t == 'thorough' else None
     # ... and each known deviation (the code as shipped) is a TLC counterexample (keeps the KF_ switches honest)
     f_kf = [(k, pool.submit(lambda k=k: ctx.mc('MC_RpcSerialize', f'MC_RpcSerialize_KF_{k[0]}.cfg', count=False, workers=2, xmx='3g', timeout=900)))
             for k in KFS]
@@ -143,11 +153,14 @@ def run(ctx):
             raise vtlib.InfraError('h_serialize wrote no cases: ' + o[-500:])
         return o, rows
     f_real = pool.submit(real)
-    r = f_mc.result()
-    if r['inv_violated'] or r['rc'] != 0:
-        rp = ctx.save_replay('mc_counterexample.txt', r['out'][-8000:])
-        ctx.violation(f'specification RpcSerialize violates {r["inv_violated"]}', rp)
-        return ctx.finish()
+    for f in [f_mc, f_mc2]:
+        if f is None:
+            continue
+        r = f.result()
+        if r['inv_violated'] or r['rc'] != 0:
+            rp = ctx.save_replay('mc_counterexample.txt', r['out'][-8000:])
+            ctx.violation(f'specification RpcSerialize ({r["cfg"]}) violates {r["inv_violated"]}', rp)
+            return ctx.finish()
     for (name, fid, text), f in f_kf:
         rk = f.result()
         if not rk['inv_violated']:
